@@ -10,6 +10,12 @@ CHECKS = {
  "C10": ("lockset dataflow on SSA (sets of lock configurations) + lock-identity + who-may-call on syscalls",
          "Decides the lock discipline that linearizability of the in-memory disk rests on, for every interleaving: each element read under the mutex (R/W), each element write under W, released on every exit including panics, the mutex is shared (not a per-call copy); the file disk transfers data only by pread/pwrite and has no mutable shared state. Level 'other'.",
          "Linearizability itself and kernel atomicity of pread/pwrite are not decided; sync.RWMutex is trusted.", "DESIGN.md §4 C10"),
+ "C01": ("table extraction from SSA (operator, op-assign, width, literal and type-name tables) compared with each other and with the reference GooseLang notation; pass-through audit; let-scope rules shared with C05",
+         "Decides necessary conditions of meaning preservation that hold for every program at once: each Go operator is printed with GooseLang's notation for it, op-assign agrees with the plain operator, + is append exactly for strings, integer widths/literals/type names/conversions are consistent, and every handler that translates a construct as its operand is audited. Level 'other': the semantic equality itself needs GooseLang's semantics (Perennial) and is not decided.",
+         "GooseLang semantics are outside the repository. Four known findings (type assertion dropped, integer conversion pass-through, two let-scope leaks).", "DESIGN.md §4 C01"),
+ "C03": ("path-enumerated case tables of the sync translators compared with the reference library mapping; recogniser constant sets; dispatch-order facts; spawn-shape facts",
+         "Decides the translator-side necessary conditions for concurrent programs: every sync method/function is mapped to the GooseLang library function of the reference table and nothing else is, the type recognisers accept exactly *sync.Mutex/Cond/WaitGroup and are consulted before the generic method path, go statements are translated only for argument-less function literals with no control effect. Level 'other'.",
+         "Interleavings of the emitted program under GooseLang's scheduler are not decided (scheduler and libraries are not in the repository).", "DESIGN.md §4 C03"),
  "C04": ("name-provenance classification at global-reference sinks paired with addDep on all paths (SSA), store/registration order, CFG facts of the emission closure",
          "Decides, for every input program at once, the translator-side necessary conditions of defined-before-use and unique naming: every emitted same-package global reference is paired with dependency recording on every path, definition names are registered in their final form, the emission closure marks, visits every recorded dependency unconditionally and only then appends, method names come from one function. Level 'other'.",
          "Coq accepting the file is not decided. One known finding (T__m collision).", "DESIGN.md §4 C04"),
